@@ -107,11 +107,17 @@ def run(ctx):
                        seg1.find_method("_set_existing_field"))
     PHc = repo.cls("Placeholder")
     for taken, newname in itertools.product(
-            ["free", "other line", "same line"], ["B", "*"]):
+            ["free", "other line", "placeholder line", "same line"],
+            ["B", "*"]):
         ctx.instance(R)
-        ln = Abs(seg1, label="line", vlevel=1, _data={"name": "A"})
-        other = Abs(seg1, label="other")
-        found = {"free": None, "other line": other, "same line": ln}[taken]
+        ln = Abs(seg1, label="line", vlevel=1, _data={"name": "A"},
+                 _virtual=False, virtual=False)
+        # the identifier may belong to a real line or to the placeholder of
+        # a forward reference: both are registered, both must be refused
+        other = Abs(seg1, label="other", _virtual=(taken == "placeholder line"),
+                    virtual=(taken == "placeholder line"))
+        found = {"free": None, "other line": other,
+                 "placeholder line": other, "same line": ln}[taken]
 
         class RN(SeqHooks):
             def method(self, ev, base, name, args, kwargs, node):
@@ -131,7 +137,7 @@ def run(ctx):
         out = eval_function(repo, f_sef, [ln, "name", value],
                             hooks=RN(repo, []))
         evs = [e[0] for e in out[2]]
-        if taken == "other line" and newname != "*":
+        if taken in ("other line", "placeholder line") and newname != "*":
             ok = out[0] == "raise" and str(out[1]).endswith("NotUniqueError") \
                 and "_unregister_line" not in evs and \
                 ln.attrs["_data"]["name"] == "A"
